@@ -42,7 +42,7 @@ def flatten(trace):
             if o['k'] in ('M', 'U') and (o['n'] != 'code' or not o['ok']):
                 continue
             if o['k'] in ('M', 'P', 'U'):
-                out.append(json.dumps({'e': 'os', 'k': o['k'], 'a': o['a'], 'prot': o['prot'], 'in': e}))
+                out.append(json.dumps({'e': 'os', 'k': o['k'], 'a': o['a'], 'prot': o['prot'], 'ok': o.get('ok', True), 'in': e}))
         out.append(json.dumps({'e': 'ret', 'maps': ev.get('maps', []), 'of': e}))
     return out
 
@@ -96,6 +96,20 @@ def run():
                     combo_txt += ('Hash v1 I1 key=K1\n' if not fullm else '') + 'DestroyVm v1\n'
     combo_txt += 'AllocCache c2 s2 m2 jit=1 large=1\nReleaseDataset d1\nReleaseCache c1\n'
     scens.append({'text': combo_txt, 'ks': 0, 'iset': 0, 'nomodel': True})
+    # the same combinations with an emulated huge-page pool, so that the LARGE_PAGES VMs really exist and hash
+    scens.append({'text': 'HugePool 64\n' + combo_txt.replace('AllocCache c2 s2 m2 jit=1 large=1\n', '').replace(' large=1\n', ' large=1\nHash v1 I1 key=K1\nDestroyVm v1\n'), 'ks': 0, 'iset': 0, 'nomodel': True})
+    # a refused protection change (the k-th mprotect of a call fails): whatever the library does then, it must not ask for W+X on a
+    # secure or cache buffer.  (An exception that ends the call or the process is an allowed outcome here.)
+    for k in (1, 2, 3):
+        for kind in ('CL', 'CF'):
+            bind = ('c1', 'none') if kind == 'CL' else ('none', 'd1')
+            t = 'AllocCache c1 s1 m1 jit=1\nInitCache c1 K1\nAllocDataset d1 dm1 nchunks=1\nInitDatasetChunk d1 c1 1\n'
+            t += 'FailProt %d\nCreateVm v1 %s %s %s v2=0 hard=0 secure=1\n' % (k, kind, bind[0], bind[1])
+            scens.append({'text': t + 'ReleaseDataset d1\nReleaseCache c1\n', 'ks': 0, 'iset': 0, 'nomodel': True, 'faulty': True})
+            t2 = 'AllocCache c1 s1 m1 jit=1\nInitCache c1 K1\nAllocDataset d1 dm1 nchunks=1\nInitDatasetChunk d1 c1 1\nCreateVm v1 %s %s %s v2=0 hard=0 secure=1\n' % (kind, bind[0], bind[1])
+            t2 += 'Hash v1 I1 key=K1\nFailProt %d\nHash v1 I2 key=K1\n' % k
+            scens.append({'text': t2, 'ks': 0, 'iset': 0, 'nomodel': True, 'faulty': True})
+        scens.append({'text': 'AllocCache c1 s1 m1 jit=1\nInitCache c1 K1\nFailProt %d\nInitCache c1 K2\n' % k, 'ks': 0, 'iset': 0, 'nomodel': True, 'faulty': True})
     combos = sorted(set((s['ks'], s['iset']) for s in scens))
     tabs = apiscen.fresh_tables(combos, lambda c: ['IL', 'CL', 'CF'] if c == (0, 0) else ['IL', 'CL'], os.path.join(wd, 'fresh'))
     for s in scens:
@@ -104,6 +118,8 @@ def run():
     lines, group, mlines, mgroup = [], [], [], []
     for j, t in enumerate(traces):
         fl = flatten(t)
+        if scens[j].get('faulty'):      # injected OS failure: the call / the process may end with an exception
+            fl = [l for l in fl if not l.startswith(('{"e":"Crash"', '{"e":"Exception"', '{"e": "HarnessExit"', '{"e":"Timeout"'))]
         lines += ['{"e":"Reset"}'] + fl
         group += [j] * (len(fl) + 1)
         if not scens[j].get('nomodel'):     # the abstract model has no failing constructor
